@@ -282,6 +282,10 @@ PROBES = [
     '10 ?"Q";A',
     '10 INPUT "NAME";N$,Q:PRINT N$;Q',
     '10 INPUT K:PRINT K',
+    # what the prompt text ends in makes no difference: INPUT always adds "? ", LINE INPUT adds nothing
+    '10 INPUT "READY?";N$:PRINT N$', '10 INPUT "WHY? ";N$:PRINT N$', '10 INPUT "?";K:PRINT K', '10 INPUT "? ";K:PRINT K',
+    '10 INPUT "A?B";K:PRINT K', '10 INPUT " ";K:PRINT K', '10 INPUT "X:";N$,K:PRINT N$;K', '10 LINE INPUT "Q?";L$:PRINT L$',
+    '10 LINE INPUT "Q? ";L$:PRINT L$', '10 LINE INPUT "?";L$:PRINT L$', '10 INPUT "";K:PRINT K', '10 INPUT "LONG PROMPT WITH BLANKS  ";K:PRINT K',
     '10 LINE INPUT "L>";L$:PRINT L$',
     '10 LINE INPUT L$:PRINT L$',
     '10 INPUT A(2):PRINT A(2)',
